@@ -257,7 +257,20 @@ def pressure_without_total_only_from_legacy_format(ctx):
                 continue
             fl = fl or Flow(P, f, cg=cg)
             g = fl.guards(i)
-            legacy = any((isinstance(p_, str) and p_ == "case:EXPERIMENTAL") or (isinstance(k, str) and "EXPERIMENTAL" in k and "==" in k and p_ is True) for k, p_ in g)
+            is_legacy = lambda g_: any((isinstance(p_, str) and p_ == "case:EXPERIMENTAL") or (isinstance(k, str) and "EXPERIMENTAL" in k and "==" in k and p_ is True) for k, p_ in g_)
+            legacy = is_legacy(g)
+            if not legacy:
+                # the legacy branch moved into a helper of its own: every call of that helper sits in the EXPERIMENTAL branch of its caller
+                edges = [e for e in cg.callers(f.usr) if isinstance(e.node, int) and e.src in P.fns]
+                if edges:
+                    legacy = True
+                    for e in edges:
+                        cf = P.fns[e.src]
+                        try:
+                            if not is_legacy(Flow(P, cf, cg=cg).guards(e.node)):
+                                legacy = False
+                        except KeyError:
+                            legacy = False
             ctx.check(legacy, "pressure-without-total-only-from-legacy-format:%s@%d" % (short(f), nd.get("line", 0)), "guarded_by (precondition of an audited throw)", f.loc(i),
                       "a pressure record without `total` is built only for the EXPERIMENTAL format",
                       "%s builds a ResourcePressure without a total (%s) outside the EXPERIMENTAL-format branch: Senpai's getPressureTotalSome answers a record "
